@@ -11,6 +11,11 @@ pub const EXT_ALL: u32 = 0xEEA;
 pub fn check_spelling(ctx: &mut Ctx, r: &WfRecipe, text: &str, what: &str) {
     let (ext, conv) = if r.extended { (EXT_ALL, 1u8) } else { (0u32, 0u8) };
     let Some(res) = recipe_case(ctx, text, ext, conv) else { return };
+    // the parser's event stream of the spelling (every span, fragment, value and modifier) is compared with the model too:
+    // the recipe alone does not show, for instance, where a component ends
+    if let Ok(evs) = crate::util::guarded(|| cooklang::parser::PullParser::new(text, cooklang::Extensions::from_bits_retain(ext)).collect::<Vec<_>>()) {
+        ctx.case(format!("events {ext} {}", crate::util::enc_text(text)), r_events(&evs), evs.len() > 2, format!("{what} ext={ext} input={text:?}"));
+    }
     let desc = format!("{what} ext={ext} conv={conv} input={text:?}");
     let fm = has_front_matter(text);
     let got = match res.output() { Some(rec) => format!("OUT {}", r_recipe(rec, !fm)), None => "NOOUT".to_string() };
